@@ -259,12 +259,25 @@ func GenDef(r *rand.Rand, p *Profile) Cfg {
 			c.Env = append(c.Env, EnvCfg{Name: o.Env, Val: T(v)})
 		}
 	}
-	if chance(r, p.Help) && !taken["help"] {
+	if chance(r, p.Help) {
+		hname := pick(r, []string{"help", "help", "ayuda", "info"})
 		al := []string{}
 		if !taken["?"] && chance(r, 0.5) {
 			al = append(al, "?")
 		}
-		c = WithHelp(c, "help", al...)
+		clash := taken[hname]
+		for _, nd := range c.Nodes {
+			if FromAtoms(nd.Name) == hname {
+				clash = true
+			}
+		}
+		if !clash {
+			c = WithHelp(c, hname, al...)
+		}
+	}
+	if p.Descs > 0 && chance(r, 0.3) {
+		c.Self = true
+		c.Prog = T(pick(r, []string{"tool", "my-prog", "x"}))
 	}
 	c.Normalize()
 	return c
